@@ -85,6 +85,9 @@ pub struct Absx {
     /// clock advance before each action is a choice in {0,+1} (C05) instead of always +1
     pub ties: bool,
     pub tie_transitions: Arc<AtomicU64>,
+    /// enumerate the actions of every state in reverse order (second sweep: BFS then settles on
+    /// other representative histories for most keys)
+    pub reversed: bool,
     pub transitions: Arc<AtomicU64>,
     pub cut: Arc<AtomicU64>,
     pub fails: Arc<Mutex<BTreeMap<String, Witness>>>,
@@ -168,6 +171,9 @@ impl Model for Absx {
         }
         let mut out: Vec<AbsAct> = Vec::new();
         self.abs_actions(s, &mut out);
+        if self.reversed {
+            out.reverse();
+        }
         for a in out {
             if self.ties {
                 acts.push((0, a.clone()));
@@ -421,6 +427,7 @@ pub fn run_closure(out: &mut Outcome, monitors: &Monitors, c: &ClosureCfg, also_
         with_redundant: c.redundant,
         ties: c.ties,
         tie_transitions: Arc::new(AtomicU64::new(0)),
+        reversed: false,
         transitions: Arc::new(AtomicU64::new(0)),
         cut: Arc::new(AtomicU64::new(0)),
         fails: Arc::new(Mutex::new(BTreeMap::new())),
@@ -446,14 +453,19 @@ pub fn run_closure(out: &mut Outcome, monitors: &Monitors, c: &ClosureCfg, also_
         out.machinery_errors.push(format!("vacuous closure '{}': never reached: {:?}", c.label, r.guards_missing));
     }
     if also_dfs && r.fails.is_empty() {
-        // second sweep with different representatives (DFS reaches each key through a long history)
-        let d = closure(mk(), true);
-        eprintln!("  E2 closure {:<44} DFS re-sweep: states={} transitions={} fails={} {:.1}s", c.label, d.unique, d.transitions, d.fails.len(), d.wall_s);
-        rec["dfs_resweep"] = json!({"unique_abstract_states": d.unique, "transitions": d.transitions, "max_depth": d.max_depth, "wall_s": (d.wall_s * 100.0).round() / 100.0});
+        // second sweep with different representatives: actions enumerated in reverse order, so
+        // that BFS settles on other (equally short) histories for most keys. (A DFS re-sweep was
+        // used first; its representatives are hundreds of operations long and every transition
+        // replays them - 30x the cost for the same statement.)
+        let mut m2 = mk();
+        m2.reversed = true;
+        let d = closure(m2, false);
+        eprintln!("  E2 closure {:<44} re-sweep, other representatives: states={} transitions={} fails={} {:.1}s", c.label, d.unique, d.transitions, d.fails.len(), d.wall_s);
+        rec["resweep_other_representatives"] = json!({"unique_abstract_states": d.unique, "transitions": d.transitions, "max_depth": d.max_depth, "wall_s": (d.wall_s * 100.0).round() / 100.0});
         // (executed-transition counts may differ by a few: parallel workers can expand the same new key twice)
         if d.unique != r.unique {
             out.machinery_errors.push(format!(
-                "abstraction check failed for '{}': BFS found {} keys / {} transitions, DFS {} / {} (a key's futures depend on its history)",
+                "abstraction check failed for '{}': the first sweep found {} keys / {} transitions, the re-sweep with other representatives {} / {} (a key's futures depend on its history)",
                 c.label, r.unique, r.transitions, d.unique, d.transitions
             ));
         }
